@@ -45,7 +45,7 @@ def gen(rng, ctx, depth):
     if depth <= 0 or rng.random() < 0.12:
         k = rng.choice(leafs)
     else:
-        comp = [k for k in F if k not in ("lit", "var", "eff", "break", "continue")]
+        comp = sorted(k for k in F if k not in ("lit", "var", "eff", "break", "continue"))
         if not ctx.in_fn:
             comp = [k for k in comp if k != "return"]
         if ctx.depth_fn >= 2:
